@@ -333,6 +333,76 @@ def scalar_corpus():
                  ('schema.dict({"id": schema.int, ...: ...}) + schema.dict({"name": schema.str, optional("t"): schema.list})',
                   {"id": 1, "name": "n"})]:
         add(e, w, optional=__import__("d42").optional)
+    # SCALE: deep nesting, wide containers, many alternatives, long chains of operations (entry by entry, like the rest)
+    from d42 import optional as _opt, substitute as _subst
+    from d42.utils import make_required as _mr
+
+    def deep(n, leaf, lw):
+        sc, w = leaf, lw
+        for i in range(n):
+            k = i % 6
+            if k == 0:
+                sc, w = schema.dict({"k%d" % i: sc, _opt("o"): schema.int}), {"k%d" % i: w}
+            elif k == 1:
+                sc, w = schema.list(sc), [w, w]
+            elif k == 2:
+                sc, w = schema.list([schema.none, sc, ...]), [None, w, 1]
+            elif k == 3:
+                sc, w = schema.any(schema.none, schema.str, sc), w
+            elif k == 4:
+                sc, w = schema.alias("L%d" % i, sc), w
+            else:
+                sc, w = schema.list([..., sc, ...]), [0, w, 0]
+        return sc, w
+    for n in (4, 5, 6, 8, 12):
+        for leaf, lw in ((schema.int.min(0), 1), (schema.str.len(1, 3), "ab"), (schema.float(1.5).precision(1), 1.5)):
+            try:
+                out.append(deep(n, leaf, lw))
+            except Exception as e:  # noqa: BLE001
+                CORPUS_STATS["corpus_build_exception:" + type(e).__name__] = CORPUS_STATS.get("corpus_build_exception:" + type(e).__name__, 0) + 1
+    wide = [
+        (lambda: schema.dict({("k%02d" % i if i % 5 else _opt("k%02d" % i)): (schema.int if i % 2 else schema.str) for i in range(30)}),
+         {"k%02d" % i: (i if i % 2 else "s") for i in range(30)}),
+        (lambda: schema.list([schema.int if i % 3 else schema.str for i in range(30)]), [i if i % 3 else "s" for i in range(30)]),
+        (lambda: schema.list([..., *[schema.int(i) for i in range(12)], ...]), ["x"] + list(range(12)) + ["y"]),
+        (lambda: schema.list([*[schema.int(i) for i in range(12)], ...]).len(12, 20), list(range(12)) + [None]),
+        (lambda: schema.any(*[schema.int(i) for i in range(15)]), 14),
+        (lambda: schema.any(*[schema.dict({"t": schema.str("v%d" % i), "n": schema.int}) for i in range(12)]), {"t": "v11", "n": 1}),
+        (lambda: schema.list(schema.int.min(0)).len(50), list(range(50))),
+        (lambda: schema.str.len(150, 200), "x" * 160), (lambda: schema.str.alphabet("ab").contains("a" * 20).len(60), "a" * 20 + "b" * 40),
+        (lambda: schema.str.regex(r"^(ab){40}c{50}$"), "ab" * 40 + "c" * 50), (lambda: schema.str.regex(r"^(a|b|c|d|e|f|g|h|i|j|k|l)$"), "l"),
+        (lambda: schema.int.min(10 ** 30).max(10 ** 30 + 5), 10 ** 30 + 2), (lambda: schema.float.min(1e200).max(1e201), 5e200),
+        (lambda: schema.dict({"a": schema.int}) + schema.dict({"b": schema.int}) + schema.dict({"c": schema.int}) + schema.dict({"d": schema.int, ...: ...}),
+         {"a": 1, "b": 2, "c": 3, "d": 4, "e": 5}),
+        (lambda: _subst(_subst(_subst(_subst(schema.dict({"a": schema.int, "b": schema.int, "c": schema.int, "d": schema.int}), {"a": 1}), {"b": 2}), {"c": 3}), {"d": 4}),
+         {"a": 1, "b": 2, "c": 3, "d": 4}),
+        (lambda: _mr(_mr(_mr(schema.dict({_opt("a"): schema.int, _opt("b"): schema.int, _opt("c"): schema.int}), ["a"]), ["b"]), ["c"]), {"a": 1, "b": 2, "c": 3}),
+        (lambda: schema.int | schema.str | schema.none | schema.bool | schema.float | schema.bytes, b"x"),
+        (lambda: schema.alias("A1", schema.alias("A2", schema.alias("A3", schema.alias("A4", schema.alias("A5", schema.int.min(0)))))), 3),
+        (lambda: schema.list(schema.list(schema.list(schema.list(schema.list(schema.int).len(1, 2)).len(1, 2)).len(1, 2)).len(1, 2)).len(1, 2),
+         [[[[[1, 2]]]], [[[[3]]]]]),
+    ]
+    for mk, w in wide:
+        try:
+            out.append((mk(), w))
+        except Exception as e:  # noqa: BLE001
+            CORPUS_STATS["corpus_build_exception:" + type(e).__name__] = CORPUS_STATS.get("corpus_build_exception:" + type(e).__name__, 0) + 1
+    # long values for every element-list form: the body occurs only at the very start / at the very end / in the middle
+    for n in (16, 17, 18, 33):
+        for e, w in (("schema.list([..., schema.int(1), schema.int(2), ...])", [0] * (n - 2) + [1, 2]),
+                     ("schema.list([..., schema.int(1), schema.int(2), ...])", [1, 2] + [0] * (n - 2)),
+                     ("schema.list([..., schema.int(1), ...])", [0] * (n - 1) + [1]),
+                     ("schema.list([..., schema.str, schema.none])", [0] * (n - 2) + ["s", None]),
+                     ("schema.list([schema.str, schema.none, ...])", ["s", None] + [0] * (n - 2)),
+                     ('schema.list([..., schema.dict({"a": schema.int}), ...])', ["x"] * (n - 1) + [{"a": 1}])):
+            add(e, w)
+    # long fixed strings with blanks, tabs and line breaks (anything that re-flows or wraps text shows up)
+    long_s = "Lorem ipsum dolor sit amet,  consectetur\tadipiscing elit,\nsed do eiusmod tempor incididunt ut labore et dolore magna aliqua. " * 2
+    for v in (long_s, " " * 90, "x" * 500, long_s.strip() + " ", "\n".join("line %d" % i for i in range(30))):
+        for e in ("schema.str(v)", 'schema.dict({"t": schema.str(v)})', "schema.list([schema.str(v), ...])", "schema.str.contains(v)",
+                  "schema.str.alphabet(v)", "schema.any(schema.int, schema.str(v))"):
+            add(e, {"t": v} if "dict" in e else ([v] if "list" in e else v), v=v)
+    add("schema.bytes(v)", b"\x00\xff" * 60, v=b"\x00\xff" * 60)
     base = list(out)
     for s, w in base[::3]:
         for e, ww in (('schema.dict({"k": s, "z": schema.none})', {"k": w, "z": None}), ("schema.list([schema.none, s])", [None, w]),
